@@ -22,7 +22,9 @@ Inductive ekind := EOther | EInput | EUnsupportedOp | EUnsupportedOpset | EModel
 (* what the harness saw the implementation do (under recover) *)
 Inductive observed := OOk (outs : list (option tval)) | OErr (k : ekind) | OPanic.
 
-Record opcase := { oc_op : string; oc_attrs : list attr; oc_ins : list (option tval); oc_obs : observed }.
+(* oc_after: deep snapshot of the input tensors after the call (same order as oc_ins) *)
+Record opcase := { oc_op : string; oc_attrs : list attr; oc_ins : list (option tval); oc_obs : observed;
+                   oc_after : list (option tval) }.
 
 (* outcome of a model function: a value, an error, or a Go panic *)
 Inductive mres (X : Type) := MOk (x : X) | MErr | MPanic.
